@@ -1,6 +1,7 @@
 package engines
 
 import (
+	"bytes"
 	"encoding/hex"
 	"fmt"
 	"math/big"
@@ -9,6 +10,7 @@ import (
 
 	sdkmath "cosmossdk.io/math"
 	sdk "github.com/cosmos/cosmos-sdk/types"
+	authtypes "github.com/cosmos/cosmos-sdk/x/auth/types"
 	minttypes "github.com/cosmos/cosmos-sdk/x/mint/types"
 	"github.com/ethereum/go-ethereum/common"
 	"github.com/ethereum/go-ethereum/crypto"
@@ -59,10 +61,20 @@ func TestEngineVauth(t *testing.T) {
 	for i := 0; i < nAcc; i++ {
 		accounts = append(accounts, c.s.CreateAccount())
 	}
+	{ // the module account that collects and burns the fixed fee holds coins of its own (a genesis allocation): a submission burns the fee, nothing else
+		coins := sdk.NewCoins(sdk.NewCoin(c.evmDenom, sdkmath.NewIntFromBigInt(new(big.Int).Mul(e18, big.NewInt(6)))), sdk.NewInt64Coin("utwo", 7_000_000))
+		require.NoError(t, bk.MintCoins(ctx, minttypes.ModuleName, coins))
+		require.NoError(t, bk.SendCoinsFromModuleToModule(ctx, minttypes.ModuleName, vauthtypes.ModuleName, coins))
+	}
+	vauthModule := authtypes.NewModuleAddress(vauthtypes.ModuleName)
+	vauthHeld := bk.GetAllBalances(ctx, vauthModule).String()
 	c.setupDone()
 	txCfg := c.s.EncodingConfig.TxConfig
 	msgHash := crypto.Keccak256([]byte("vauth"))
 	idOf := func(a common.Address) string {
+		if a == (common.Address{}) {
+			return "998"
+		}
 		for i, s := range submitters {
 			if s.GetEthAddress() == a {
 				return fmt.Sprint(i)
@@ -148,6 +160,27 @@ func TestEngineVauth(t *testing.T) {
 				g2, _ := crypto.Sign(msgHash, k2)
 				sigStr = "0x" + hex.EncodeToString(g2)
 			}
+			if r.Chance(1, 12) && !usedA[-1] { // the zero address, "proved" by bytes from which no key can be recovered (what a failed recovery leaves is the zero value)
+				usedA[-1] = true
+				accAddr = sdk.AccAddress(make([]byte, 20))
+				raw := make([]byte, 65)
+				switch r.Intn(5) {
+				case 0: // r = s = 0
+				case 1: // a recovery id that does not exist
+					copy(raw, good)
+					raw[64] = byte(4 + r.Intn(200))
+				case 2: // wrong length
+					raw = bytes.Repeat([]byte{0xff}, 64)
+				case 3: // r, s above the group order
+					raw = append(bytes.Repeat([]byte{0xff}, 64), 0)
+				default:
+					for k := range raw {
+						raw[k] = byte(r.Intn(256))
+					}
+					raw[64] = 2
+				}
+				sigStr = "0x" + hex.EncodeToString(raw)
+			}
 			accStr := accAddr.String()
 			if r.Chance(1, 5) { // the all-upper-case notation of the same bech32 address
 				accStr = strings.ToUpper(accStr)
@@ -200,7 +233,9 @@ func TestEngineVauth(t *testing.T) {
 			aid := strings.TrimPrefix(fields[2], "a=")
 			var ai int
 			fmt.Sscan(aid, &ai)
-			if ai >= 100 {
+			if ai == 998 {
+				accAddr = sdk.AccAddress(make([]byte, 20))
+			} else if ai >= 100 {
 				accAddr = accounts[ai-100].GetCosmosAddress()
 			} else {
 				accAddr = submitters[ai].GetCosmosAddress()
@@ -242,6 +277,10 @@ func TestEngineVauth(t *testing.T) {
 			}
 			if tr.Code != 0 && (dSup.Sign() != 0) {
 				p.Oracle("C16-reject-burnt", "rejected submission changed the supply by %s: %s", dSup, sb.op)
+			}
+			if now := c.s.ChainApp.BankKeeper().GetAllBalances(after, vauthModule).String(); now != vauthHeld {
+				p.Oracle("C16-burnt-more-than-the-fee", "the module account held %s before, %s after: %s", vauthHeld, now, sb.op)
+				vauthHeld = now
 			}
 		}
 	}
